@@ -10,11 +10,14 @@
    5 SKIPDMG: sn sw sr frames damaged_frame obs* tree   in-block damage inside a skipped element
              kind (see check_skipdmg; code 4: the L1 model does not say Err without the flags, or
              not Ok with the frame's number of objects under them)
+   6 ALLOC : frames damaged_frame (procs MiB)*   heap handed out while scanning a zip-bomb blob
+             (see check_alloc)
+   7 SESSION: frames k calls* (code tok)*   a call script on a cut valid file (see check_session)
    outcome: 0 Err()=nil, 1 Err()<>nil, 2 process crashed, 3 hang.
    codes: 1 = model <> implementation, 2 = property oracle fails on the observation,
           3 = the runs do not partition 0..size, 0 = case does not parse. *)
 From Coq Require Import ZArith List Bool.
-From Verif Require Import Base.Wire Framing.Model Framing.Valid Framing.WireFrames C06.Spec.
+From Verif Require Import Base.Wire Framing.Model Framing.Valid Framing.WireFrames C06.Spec C06.Session.
 From Verif Require Pbf.Tree Pbf.Model Pbf.CheckLib.
 Import ListNotations.
 Open Scope Z_scope.
@@ -129,6 +132,81 @@ Definition check_skipdmg : P (list Z) :=
             end in
   ret (code_if j1 1 ++ code_if j2 2 ++ code_if j4 4)%list.
 
+(* 6 ALLOC: frames di (procs MiB)*  -- a blob whose zlib stream inflates to more than the blob size
+   limit while raw_size is small (zip bomb); MiB = what the Go heap handed out during the scan.
+   Judgement 2: every scan stayed within the budget the MODEL derives for the damaged frame: the
+   read buffer of Start (maxBlobSize), twice what getData lets the inflater produce
+   ([inflated_bytes current]: buffer with 10% spare + the cgo build's copy), 16 MiB for everything
+   else; and the case is in the class (the stream is longer than the limit, so an unbounded
+   inflater would exceed the budget). *)
+Definition mib : Z := 1048576.
+Definition alloc_budget_mib (e : encoding) : Z :=
+  maxBlobSize / mib + 2 * ((inflated_bytes current e + mib - 1) / mib) + 16.
+
+Definition check_alloc : P (list Z) :=
+  fs <- pframes ;; di <- pnat ;; obs <- plist (p <- pint ;; a <- pint ;; ret (p, a)) ;;
+  let j2 :=
+    match nth_error fs di with
+    | Some f =>
+        match f_blob f with
+        | BlobOk b =>
+            let e := b_enc b in
+            forallb (fun '(_, a) => (0 <=? a) && (a <=? alloc_budget_mib e)) obs
+            && negb (Nat.eqb (length obs) 0)
+            && match e with EncZlib _ z => maxBlobSize <? inflate_len z | _ => false end
+        | BlobBad => false
+        end
+    | None => false
+    end in
+  ret (code_if j2 2).
+
+(* 7 SESSION: frames k calls* (code tok)*  -- one scanner on the first k bytes of a VALID file driven by
+   a call script (0 Scan, 1 Err, 2 Header); responses: 0 Scan false, 1 Scan true + object, 2/3
+   Err nil/non-nil, 4/5 Header error nil/non-nil.  Judgement 1: the scanner.go model of
+   C06/Session.v over [scan] answers every call alike.  Judgement 2 (on the observation alone):
+   the objects returned are those of the blocks wholly before k; after the first Scan = false no
+   Scan returns true, every Err answers alike and Header reports an error; and that Err is non-nil
+   iff k is not a block boundary. *)
+Definition call_of (z : Z) : call := if z =? 0 then KScan else if z =? 1 then KErr else KHeader.
+Definition resp_code (x : resp obj) : Z * obj :=
+  match x with
+  | RScanFalse => (0, 0) | RObj o => (1, o)
+  | RErr false => (2, 0) | RErr true => (3, 0)
+  | RHeader false => (4, 0) | RHeader true => (5, 0)
+  end.
+Definition pair_eqb (a b : Z * obj) : bool := (fst a =? fst b) && (snd a =? snd b).
+
+(* after the first Scan = false: [seen] says it was seen, [e] the Err answer seen since *)
+Fixpoint sticky (seen : bool) (e : option Z) (l : list (Z * obj)) : bool :=
+  match l with
+  | [] => true
+  | (c, _) :: r =>
+      if negb seen then sticky (c =? 0) e r
+      else if c =? 1 then false
+      else if c =? 4 then false
+      else if (c =? 2) || (c =? 3) then
+        match e with
+        | Some c' => (c =? c') && sticky true e r
+        | None => sticky true (Some c) r
+        end
+      else sticky true e r
+  end.
+Definition returned (l : list (Z * obj)) : list obj :=
+  flat_map (fun x => if fst x =? 1 then [snd x] else []) l.
+Definition last_err (l : list (Z * obj)) : Z :=
+  fold_left (fun a x => if (fst x =? 2) || (fst x =? 3) then fst x else a) l (-1).
+
+Definition check_session : P (list Z) :=
+  fs <- pframes ;; k <- pint ;; calls <- plist pint ;;
+  resps <- plist (c <- pint ;; t <- ptok ;; ret (c, t)) ;;
+  let model := map resp_code (session fs k (map call_of calls)) in
+  let j1 := list_eqb pair_eqb model resps in
+  let j2 := valid_file fs && (0 <=? k) && (k <=? total_size fs)
+            && objs_eqb (returned resps) (objs_before fs k)
+            && sticky false None resps
+            && (last_err resps =? (if is_boundary fs k then 2 else 3)) in
+  ret (code_if j1 1 ++ code_if j2 2)%list.
+
 (* 4 TRAILER: like DAMAGE, for BYTES FOLLOWING the end of the zlib stream inside zlib_data (the data
    are intact and raw_size is right).  Both builds ignore them; an error would also satisfy the
    property: an error after the intact blocks, or success with every object (nothing invented,
@@ -163,6 +241,8 @@ Definition check_case (t : toks) : list Z :=
                else if tag =? 6 then check_whole
                else if tag =? 8 then check_trailer
                else if tag =? 10 then check_skipdmg
+               else if tag =? 12 then check_alloc
+               else if tag =? 14 then check_session
                else pfail in
       match parse_all p rest with Some codes => codes | None => [0] end
   | [] => [0]
